@@ -1,5 +1,7 @@
 import NeverModel.Lemmas.Frame
 import NeverModel.Props.C09
+import NeverModel.Props.C07
+import NeverModel.Lemmas.VmWOkSound
 /-!
 # C14 — exhausting the VM stack or heap is reported, not suffered
 
@@ -11,7 +13,7 @@ write.  On the pinned tree MARK, ALLOC, RECORD_UNPACK and DUP wrote first and ch
 writes in all four, the model mirrors the repaired code, and ALLOC now goes through `pushAddr`.
 -/
 namespace Never.C14
-open Never Never.Vm
+open Never Never.Vm Never.Mem
 
 /-- a checked push never writes outside the configured stack: it is in bounds, or it is reported -/
 theorem push_in_bounds_or_reported (vm : Vm) (a : Nat) (hs : StackOk vm) (h0 : -1 ≤ vm.sp) :
@@ -72,5 +74,198 @@ theorem heap_limit_reported {g : Gc} (o : Obj) (inv : Inv g) :
 
 example : ((Vm.new 10 8).sp + 5 ≥ ((Vm.new 10 8).stackSize : Int)) = False := by simp [Vm.new]
 example : (({ Vm.new 10 8 with sp := 4 } : Vm).sp + 5 ≥ (({ Vm.new 10 8 with sp := 4 } : Vm).stackSize : Int)) := by simp [Vm.new]
+
+/-! ## every handler, every step: no store outside the stack array
+
+`WOk` (Lemmas/VmWOk*.lean) is an effect logic over the VM monad that tracks `sp` and the bounds facts a handler has established: a
+completed read of slot `i` gives `0 ≤ i < stackSize`, a passed `vm_check_stack` gives `sp < stackSize`; every `wrSlot` must be
+justified by such facts.  It is discharged for all 222 opcodes. -/
+
+/-- **No handler writes outside the stack.**  For every instruction (all 222 opcodes, any module, any oracle) and every machine state
+with `−1 ≤ sp < stackSize`, the handler never ends in the crash that models a store outside `[0, stackSize)`: each store goes to a
+slot the handler has read before (or to a higher slot than a read one and a lower one than a read or checked one), and every push
+runs `vm_check_stack` — which reports "stack too large" — BEFORE its store.  Nothing else is assumed (no well-formed frames, no
+verified module, `StackOk` not needed) except the two provisos, which are necessary (counterexamples below):
+* `SLIDE q m` with `q, m ≠ 0` needs `−1 ≤ sp − q − m`: its first store goes to `sp − q − m + 1` while its first read is `q` slots
+  higher (`verified_slide_stores_in_frame` discharges this in verified modules);
+* the build-in `read` (id 12) needs `sp + 1 < stackSize`: LIB_MATH_READ in libvm.c does `machine->sp++` and stores WITHOUT
+  `vm_check_stack`, the model mirrors that. -/
+theorem no_handler_writes_outside_the_stack (md : Vm.Module) (ins : Vm.Instr) (orc : Vm.Oracle) (vm : Vm)
+    (h0 : -1 ≤ vm.sp) (h1 : vm.sp < vm.stackSize)
+    (hslide : ins.op = .SLIDE → ins.w0 ≠ 0 → ins.w1 ≠ 0 → -1 ≤ vm.sp - (ins.w0 : Int) - (ins.w1 : Int))
+    (hread : ins.op = .BUILD_IN → ins.w0 = 12 → vm.sp + 1 < vm.stackSize) :
+    (exec md ins orc).run vm ≠ .error (.crash "stack write out of bounds") :=
+  exec_wok md ins orc vm.stackSize vm.sp h0 h1 hslide hread vm rfl rfl
+
+/-- **No step writes outside the stack**: the same for `step` (fetch, `ip++`, handler, exception dispatch), the provisos being about
+the instruction at `ip` -/
+theorem no_step_writes_outside_the_stack (md : Vm.Module) (orc : Vm.Oracle) (vm : Vm) (h0 : -1 ≤ vm.sp) (h1 : vm.sp < vm.stackSize)
+    (hslide : ∀ ins, md.code[vm.ip]? = some ins → ins.op = .SLIDE → ins.w0 ≠ 0 → ins.w1 ≠ 0 → -1 ≤ vm.sp - (ins.w0 : Int) - (ins.w1 : Int))
+    (hread : ∀ ins, md.code[vm.ip]? = some ins → ins.op = .BUILD_IN → ins.w0 = 12 → vm.sp + 1 < vm.stackSize) :
+    (step md orc).run vm ≠ .error (.crash "stack write out of bounds") :=
+  step_wok md orc vm h0 h1 hslide hread
+
+/-- the SLIDE proviso holds in a verified module: at the recorded height `h` of a SLIDE `q m` the certificate has `q + m ≤ h`, or the
+last-call shape `h = q + 1`, `m = nparams + 1`; so the lowest slot stored to is above the argument base `pp` -/
+theorem verified_slide_stores_in_frame (md : Vm.Module) (sm : Ver.Summary) (hm : Ver.HMap) (hv : Ver.verifyH md = .ok (sm, hm))
+    (vm : Vm) (i : Vm.Instr) (hi : md.code[vm.ip]? = some i) (hop : i.op = .SLIDE) (hh : Ver.AtHeight md hm vm) (hpp : -1 ≤ vm.pp) :
+    i.w0 ≠ 0 → i.w1 ≠ 0 → -1 ≤ vm.sp - (i.w0 : Int) - (i.w1 : Int) := by
+  intro hq _
+  obtain ⟨_, hf⟩ := C07.verifyH_ok md sm hm hv
+  obtain ⟨hrun, st, hs, hinv⟩ := hh
+  rcases Ver.frameOkAt_SLIDE hi hs hop (Ver.frame_at hf hi) with ⟨hq', _⟩ | ⟨_, hle, _⟩ | ⟨_, _, hh, hm1, _, _⟩
+  · exact absurd hq' hq
+  · omega
+  · unfold Ver.fnParamsAt at hinv; omega
+
+/-- the `read` proviso is necessary — **a latent defect of the C code**: with `sp = stackSize − 1` the build-in `read` stores one slot
+past the array.  (Not reachable from emitted code: the call sequence pushes the function value, with a check, into that very slot
+just before the CALL pops it.) -/
+theorem read_build_in_pushes_unchecked :
+    (match (exec default ⟨.BUILD_IN, 12, 0, 0⟩ {}).run ({ Vm.new 4 2 with sp := 1 } : Vm) with
+      | .error (.crash w) => w == "stack write out of bounds" | _ => false) = true := by decide +kernel
+
+/-- the SLIDE proviso is necessary: `SLIDE 1 1` at `sp = 0` reads slot 0 and stores to slot −1 -/
+theorem slide_below_the_array_counterexample :
+    (match (exec default ⟨.SLIDE, 1, 1, 0⟩ {}).run ({ Vm.new 4 2 with sp := 0 } : Vm) with
+      | .error (.crash w) => w == "stack write out of bounds" | _ => false) = true := by decide +kernel
+
+/-- the hypotheses are satisfiable: the start machine has `sp = −1`, and a step of a real run from it meets them -/
+example : (-1 : Int) ≤ (Vm.new 8 8).sp ∧ (Vm.new 8 8).sp < ((Vm.new 8 8).stackSize : Int) := by simp [Vm.new]
+example : (step C09.vmExModule {}).run (beginExecute C09.vmExModule (Vm.new 8 8)) ≠ .error (.crash "stack write out of bounds") :=
+  no_step_writes_outside_the_stack _ _ _ (by simp [beginExecute, Vm.new]) (by simp [beginExecute, Vm.new])
+    (fun ins h hop => by
+      have : ins = ⟨.INT, 7, 0, 0⟩ := by
+        have e : C09.vmExModule.code[(beginExecute C09.vmExModule (Vm.new 8 8)).ip]? = some ⟨.INT, 7, 0, 0⟩ := by decide +kernel
+        rw [e] at h; cases h; rfl
+      subst this; cases hop)
+    (fun ins h hop => by
+      have : ins = ⟨.INT, 7, 0, 0⟩ := by
+        have e : C09.vmExModule.code[(beginExecute C09.vmExModule (Vm.new 8 8)).ip]? = some ⟨.INT, 7, 0, 0⟩ := by decide +kernel
+        rw [e] at h; cases h; rfl
+      subst this; cases hop)
+
+/-! ## the heap side
+
+In M-Heap a store outside the cell array is NOT a crash: `Mem.setObj` with `a ≥ size` leaves the memory as it is (a model
+inaccuracy with respect to the C code, where it is undefined behaviour), so "no heap store is out of bounds" cannot be read off the
+outcome of a handler the way the stack side can.  What is proved instead: the allocator hands out only cells inside the heap that are
+free (`alloc_in_heap_or_reported`); every raw store of a handler goes to a cell that a completed read or an allocation of the same
+handler has shown to hold an object — this is the proviso of the leaf rule `kf_setObj` of the logic `KF`, discharged for all 222
+opcodes in `exec_keeps_freeInv` (C09 `vm_step_keeps_bookkeeping`), and such cells are inside the heap (`heap_reads_in_heap`,
+`guarded_stores_in_heap`); exhaustion is reported exactly when no cell is free (`vm_heap_limit_reported`) and a report raised inside a
+handler is the handler's outcome (`limit_report_propagates`). -/
+
+theorem alloc_run_eq (o : Obj) (vm : Vm) :
+    (alloc o).run vm = (match vm.gc.alloc o with
+      | none => .error (.exit "out of memory" [])
+      | some (g, loc) => .ok (loc, { vm with gc := g })) := by
+  unfold alloc
+  show (match vm.gc.alloc o with
+      | none => (exitVm "out of memory" : M Nat)
+      | some (g, loc) => do set { vm with gc := g }; pure loc).run vm = _
+  cases vm.gc.alloc o with
+  | none => rfl
+  | some p => rfl
+
+/-- **An allocation lands inside the heap, in a free cell, or is reported.**  In a machine whose heap bookkeeping is intact
+(`FreeInv`, an invariant of EVERY execution: C09 `vm_heap_bookkeeping_invariant`) the VM's `alloc` either finds the free chain empty
+and stops with the "out of memory" report, the heap untouched, or returns the head of the free chain: an address `0 < a < size` whose
+cell held no object before and holds the new one afterwards; nothing but the heap changes, and the bookkeeping stays intact. -/
+theorem alloc_in_heap_or_reported (vm : Vm) (o : Obj) (hi : FreeInv vm.gc) :
+    (vm.gc.free = 0 ∧ (alloc o).run vm = .error (.exit "out of memory" [])) ∨
+    (∃ g, (alloc o).run vm = .ok (vm.gc.free, { vm with gc := g }) ∧ 0 < vm.gc.free ∧ vm.gc.free < vm.gc.mem.size ∧
+       objAt vm.gc.mem vm.gc.free = none ∧ objAt g.mem vm.gc.free = some o ∧ FreeInv g) := by
+  rw [alloc_run_eq]
+  cases h : vm.gc.alloc o with
+  | none =>
+    left
+    refine ⟨?_, rfl⟩
+    unfold Gc.alloc at h
+    simp only at h
+    split at h
+    · assumption
+    · cases h
+  | some p =>
+    obtain ⟨g, loc⟩ := p
+    right
+    obtain ⟨f1, f2, f3, f4⟩ := freeInv_alloc hi h
+    have hl : loc = vm.gc.free := by
+      unfold Gc.alloc at h
+      simp only at h
+      split at h
+      · cases h
+      · simp only [Option.some.injEq, Prod.mk.injEq] at h; exact h.2.symm
+    subst hl
+    rcases hi.alloc_fresh with h0 | ⟨hlt, _⟩
+    · exact absurd h0 f2
+    · exact ⟨g, rfl, by omega, hlt, f3, f4, f1⟩
+
+/-- **Heap exhaustion is reported exactly when every cell is in use** (the VM-level form of `heap_limit_reported`, under the
+invariant of all executions instead of C09's typed `Inv`) -/
+theorem vm_heap_limit_reported (vm : Vm) (o : Obj) (hi : FreeInv vm.gc) (hsz : 1 ≤ vm.gc.mem.size) :
+    (alloc o).run vm = .error (.exit "out of memory" []) ↔ vm.gc.cur.length + 1 = vm.gc.mem.size := by
+  obtain ⟨fl, il⟩ := hi
+  have hc := il.count hsz
+  rw [alloc_run_eq]
+  unfold Gc.alloc
+  simp only
+  constructor
+  · intro h
+    split at h
+    · rename_i heq
+      split at heq
+      · rename_i hf
+        cases fl with
+        | nil => simpa using hc
+        | cons x xs => have := il.chain; simp [Chain] at this; omega
+      · cases heq
+    · cases h
+  · intro h
+    have : fl = [] := by cases fl with | nil => rfl | cons x xs => simp at hc; omega
+    subst this
+    have := il.chain; simp [Chain] at this
+    simp [this]
+
+/-- a limit report (or any other stop) raised by a part of a handler is the outcome of the handler: with `alloc_in_heap_or_reported`,
+EVERY allocating handler — they are all built from `alloc` by `>>=` — stops with "out of memory" at the first allocation that finds
+the heap full -/
+theorem limit_report_propagates {α β} (f : M α) (g : α → M β) (vm : Vm) (e : Vm.Stop) :
+    (f >>= g).run vm = .error e ↔ f.run vm = .error e ∨ ∃ a vm', f.run vm = .ok (a, vm') ∧ (g a).run vm' = .error e :=
+  run_bind_err f g vm e
+
+/-- every completed heap read — `gc_get_*` with its assertions — hit a cell inside the heap that holds an object -/
+theorem heap_reads_in_heap (a : Nat) (vm vm' : Vm) (o : Obj) (h : (objOf a).run vm = .ok (o, vm')) :
+    vm' = vm ∧ a < vm.gc.mem.size ∧ objAt vm.gc.mem a = some o := by
+  obtain ⟨e, ha⟩ := guard_objOf a vm o vm' h
+  obtain ⟨b, hb, _⟩ := objOf_val h
+  exact ⟨e, objAt_some_lt hb, hb⟩
+
+/-- the stores into vectors and arrays read their target first, so a completed one went to a cell inside the heap holding an object -/
+theorem guarded_stores_in_heap (a i v : Nat) (vm vm' : Vm) :
+    ((setVec a i v).run vm = .ok ((), vm') → a < vm.gc.mem.size ∧ (objAt vm.gc.mem a).isSome = true) ∧
+    ((setArrElem a i v).run vm = .ok ((), vm') → a < vm.gc.mem.size ∧ (objAt vm.gc.mem a).isSome = true) := by
+  constructor
+  · intro h
+    unfold setVec at h
+    obtain ⟨fs, v1, h1, _⟩ := (run_bind_ok _ _ _ _ _).mp h
+    obtain ⟨_, ha⟩ := guard_getVecObj a vm fs v1 h1
+    have ha' : (objAt vm.gc.mem a).isSome = true := ha
+    cases hb : objAt vm.gc.mem a with
+    | none => rw [hb] at ha'; cases ha'
+    | some b => exact ⟨objAt_some_lt hb, rfl⟩
+  · intro h
+    unfold setArrElem at h
+    obtain ⟨p, v1, h1, _⟩ := (run_bind_ok _ _ _ _ _).mp h
+    obtain ⟨_, ha⟩ := guard_getArrObj a vm p v1 h1
+    have ha' : (objAt vm.gc.mem a).isSome = true := ha
+    cases hb : objAt vm.gc.mem a with
+    | none => rw [hb] at ha'; cases ha'
+    | some b => exact ⟨objAt_some_lt hb, rfl⟩
+
+/-- the heap hypotheses are met by the start machine of every execution with at least one cell, and by every state it reaches -/
+example : FreeInv (Vm.new 8 8).gc := by
+  have : (Vm.new 8 8).gc = Gc.new 8 := by unfold Vm.new; simp
+  rw [this]; exact freeInv_new 8 (by omega)
 
 end Never.C14
